@@ -98,7 +98,7 @@ func bases(maxOps int) (out []base) {
 }
 
 // envs lists the environments (load outcome, try-close verdict) that can matter for ops.
-func envs(ops []Op) (out [][2][]int) {
+func envs(ops []Op) (out [][3][]int) {
 	loads := [][]int{{ldValue}}
 	if hasKind(ops, kGet) {
 		loads = append(loads, []int{ldErr}, []int{ldNil})
@@ -121,7 +121,11 @@ func envs(ops []Op) (out [][2][]int) {
 	}
 	for _, l := range loads {
 		for _, t := range tries {
-			out = append(out, [2][]int{l, t})
+			out = append(out, [3][]int{l, t, {0}})
+			// a load that ignores cancellation and outlasts the cache's close deadline
+			if hasKind(ops, kClose) && hasKind(ops, kGet) && (l[0] == ldValue || l[0] == ldErr) {
+				out = append(out, [3][]int{l, t, {1}})
+			}
 		}
 	}
 	return out
@@ -153,7 +157,7 @@ func enumerate(yield func(Case) bool) {
 			}
 			stop := false
 			_, complete := sched.Explore(func(prefix []int) ([]int, []int, bool) {
-				c := Case{Pre: b.pre, Age: true, Ops: b.ops, Sched: append([]int{}, prefix...), Loads: e[0], Try: e[1]}
+				c := Case{Pre: b.pre, Age: true, Ops: b.ops, Sched: append([]int{}, prefix...), Loads: e[0], Try: e[1], Adv: e[2][0]}
 				lastTrace = nil
 				if !yield(c) {
 					stop = true
@@ -215,6 +219,7 @@ func genCase(rt *rapid.T) Case {
 	c.Loads = rapid.SliceOfN(rapid.SampledFrom([]int{ldValue, ldValue, ldValue, ldErr, ldNil, ldCtxAware, ldCtxAtEnd}), 1, 4).Draw(rt, "loads")
 	c.Try = rapid.SliceOfN(rapid.IntRange(0, 2), 1, 3).Draw(rt, "try")
 	c.CloseErr = rapid.IntRange(0, 4).Draw(rt, "closeErr") == 0
+	c.Adv = rapid.SampledFrom([]int{0, 0, 1, 2}).Draw(rt, "adv")
 	return c
 }
 
@@ -261,6 +266,14 @@ func TestRegTryRemoveWhileLoading(t *testing.T) {
 func TestRegTryRemoveCloseError(t *testing.T) {
 	outerT = t
 	vstat.One(t, prop, Case{Pre: []Op{{K: kGet}}, Ops: []Op{{K: kTryRm}, {K: kGet}}, Try: []int{tryClosedErr}}, run)
+}
+
+// Cache Close while a load that ignores cancellation is in flight and outlasts the close
+// deadline: once the load has finished its instance must still be closed.
+func TestRegLoadOutlastsCloseDeadline(t *testing.T) {
+	outerT = t
+	// start get, start close, advance, open load
+	vstat.One(t, prop, Case{Ops: []Op{{K: kGet}, {K: kClose}}, Sched: []int{0, 0, 1, 0}, Adv: 1}, run)
 }
 
 // GO-7332 shape (the repo's own regression, here as a schedule): busy TryRemove reverts the
